@@ -200,7 +200,7 @@ func vfCheckCrashImage(root string, seq int, img vfDirImage, conf *vfStoreConf, 
 	}
 	// a following Add + Flush must use a segment id larger than every id in the image's file names
 	maxBefore := vfMaxSegmentID(names)
-	probe := &vfStoreDoc{ID: 1<<30 + 900000, N: 900000, Vec: make([]float32, conf.Dim), Word: "probe"}
+	probe := &vfStoreDoc{ID: 1<<30 + 1<<21 + 900000, N: 900000, Vec: make([]float32, conf.Dim), Word: "probe"}
 	probe.Vec[0] = 1
 	if _, err := vfStoreAdd(st, conf, probe); err != nil {
 		return vfFail("crash image [%s]: Add after reopen fails: %v", what, err)
@@ -252,7 +252,7 @@ func vfCheckCrashImage(root string, seq int, img vfDirImage, conf *vfStoreConf, 
 		names2 = append(names2, n)
 	}
 	max2 := vfMaxSegmentID(names2)
-	probe2 := &vfStoreDoc{ID: 1<<30 + 900001, N: 900001, Vec: make([]float32, conf.Dim), Word: "probe"}
+	probe2 := &vfStoreDoc{ID: 1<<30 + 1<<21 + 900001, N: 900001, Vec: make([]float32, conf.Dim), Word: "probe"}
 	probe2.Vec[0] = 1
 	everAdded[probe2.ID] = true
 	if _, err := vfStoreAdd(st2, conf, probe2); err != nil {
@@ -332,7 +332,7 @@ func vfC10Run(c vfC10Case, ctx *vfCtx) *vfViolation {
 	if v := addAll(c.InFlight, inflight); v != nil {
 		return v
 	}
-	everAdded[1<<30+900000] = true // the probe document of the per-image oracle
+	everAdded[1<<30+1<<21+900000] = true // the probe document of the per-image oracle
 	vfInflightSpansSegments = vfStoreMemtableCount(st) > 1
 
 	if c.BgParkAt != "" {
